@@ -97,6 +97,12 @@ impl Agent for FakeAgent {
             // Numeric ids: the runtime numbers lanes and stores separately, both from 0, and puts the lanes that need no
             // initialisation first: tval = lane 0, val = lane 1. A store that is never written takes store id 0 so that
             // `vstore` gets store id 1, the id of the lane `val`.
+            // In lane-failure mode the agent also has a (transient) map lane, so that a lane of that kind can fail.
+            let early_map = if persist.is_none() {
+                Some(context.add_lane("map", WarpLaneKind::Map, config).await.map_err(|_| swimos_api::error::AgentInitError::FailedToStart)?)
+            } else {
+                None
+            };
             let mut store0 = None;
             let mut store = if persist.as_ref().map(|p| p.mirror_store).unwrap_or(false) {
                 store0 = Some(context.add_store("vstore0", StoreKind::Value).await.map_err(|_| swimos_api::error::AgentInitError::FailedToStart)?);
@@ -173,7 +179,7 @@ impl Agent for FakeAgent {
                 },
             );
             rec(&truth, TruthEv::Start);
-            Ok(fake_task(context, lanes, store, store0, config, truth, plan, persist, restored_val).boxed())
+            Ok(fake_task(context, lanes, store, store0, early_map, config, truth, plan, persist, restored_val).boxed())
         }
         .boxed()
     }
@@ -190,6 +196,7 @@ async fn fake_task(
     lanes: Vec<(&'static str, ByteWriter, ByteReader)>,
     store: Option<(ByteWriter, ByteReader)>,
     _store0: Option<(ByteWriter, ByteReader)>,
+    early_map: Option<(ByteWriter, ByteReader)>,
     lane_config: LaneConfig,
     truth: SharedTruth,
     plan: Option<FailPlan>,
@@ -220,6 +227,13 @@ async fn fake_task(
     let mut store_enc = ValueStoreResponseEncoder::default();
     let mut map_writer: Option<FramedWrite<ByteWriter, MapLaneResponseEncoder>> = None;
     let mut map_ready = false;
+    if let Some((tx, rx)) = early_map {
+        // A transient lane registered at start has no initialisation phase.
+        map_writer = Some(FramedWrite::new(tx, MapLaneResponseEncoder::default()));
+        map_ready = true;
+        let framed = FramedRead::new(rx, MapLaneRequestDecoder::<i32, i32>::default());
+        readers.push(framed.map(|r| In::Map(r.map_err(|_| ()))).boxed());
+    }
     let mut map_state: BTreeMap<i32, i32> = BTreeMap::new();
     let mut handled: u32 = 0;
     let mut failed: Option<&'static str> = None;
@@ -339,9 +353,26 @@ async fn fake_task(
         }
         if let Some(p) = &plan {
             if failed.is_none() && handled >= p.after_requests {
-                let lane: &'static str = if p.lane == "val" { "val" } else { "tval" };
+                let lane: &'static str = match p.lane.as_str() {
+                    "val" => "val",
+                    "map" => "map",
+                    _ => "tval",
+                };
                 failed = Some(lane);
                 rec(&truth, TruthEv::LaneFailed { item: lane });
+                if lane == "map" {
+                    map_ready = false;
+                    if let Some(w) = map_writer.take() {
+                        if matches!(p.mode, FailMode::Garbage) {
+                            let mut raw = w.into_inner();
+                            let mut junk = BytesMut::new();
+                            junk.extend_from_slice(&[0xEEu8; 17]);
+                            let _ = raw.write_all(&junk).await;
+                            std::mem::forget(raw);
+                        }
+                    }
+                    continue;
+                }
                 match p.mode {
                     FailMode::Garbage => {
                         if let Some(w) = writers.remove(lane) {
